@@ -30,6 +30,13 @@ Further operations: sk:<key>:<dest>:<permille>:<bc>:<mc>  send_to(.., input_key_
 si:<u>:<dest>:<permille>:<bc>  send(.., input_arr=[the u-th unspent output], fee=..): exactly one chosen output is
 spent; iw:<i>  transaction_import of a transaction created by ANOTHER wallet of the file; dl:<i>  transaction_delete
 of the i-th most recent transaction this wallet created (de:<i> takes the i-th of all known transaction ids).
+Round 3: kinds addr / addrl (single-key wallet from an address string), singlep (from a public key), hdw (HD wallet
+from the account xpub); ik:<j>[:A] import_key(Address) / ip:<j>[:A] import_key(public key) [account of group A];
+ir:<dest>:<permille>:<version>:<locktime>:<r|o|d>:<0|s|b>  a transaction built and signed elsewhere is imported as raw
+bytes / Transaction / dict and then left / stored / sent; key index -1 = the key added last; flags a (wallet created
+with account_id=1|2) and d (default_account_id = 1 set and persisted after new_account()).  Observation fields ku
+(utxos(key_id=k): key:sum:count:outputs of other keys), fixed (txid~bytes of imported / fully signed stored
+transactions), reser extended by version, locktime, sequences, amounts of the reloaded object.
 Kind flags (after "+"): f  first reading in a forked process; m  the provider answers with SEVERAL outputs per
 transaction id (every address is paid by output <n(address)> of two shared transactions); x  transaction_delete of
 a transaction id which another wallet of the file holds too is attempted (recorded finding delete_shared_txid).
@@ -39,7 +46,8 @@ sys.path.insert(0, os.path.dirname(os.path.abspath(__file__)))
 logging.disable(logging.CRITICAL)
 import bitcoinlib.wallets as BW
 from bitcoinlib.wallets import Wallet, WalletError
-from bitcoinlib.keys import HDKey
+from bitcoinlib.keys import HDKey, Address
+from bitcoinlib.transactions import Transaction
 from bitcoinlib.services.services import Service as RealService
 
 NW = 'bitcoinlib_test'
@@ -100,7 +108,10 @@ class RecService(RealService):
 
 BW.Service = RecService
 
-WT = {'hd': 'segwit', 'hdl': 'legacy', 'hdp': 'p2sh-segwit', 'single': 'segwit', 'ms': 'segwit'}
+WT = {'hd': 'segwit', 'hdl': 'legacy', 'hdp': 'p2sh-segwit', 'single': 'segwit', 'ms': 'segwit',
+      # wallets WITHOUT key material: a single-key wallet made from an address string (legacy / segwit address), from
+      # a public key only, an HD wallet made from the account's extended public key
+      'addr': 'segwit', 'addrl': 'legacy', 'singlep': 'segwit', 'hdw': 'segwit'}
 
 
 def pool_txid(slot):
@@ -348,6 +359,15 @@ def observe(st, full):
     orm = {k.id: k.balance for k in w.keys()}
     o['kb_orm'] = kb_view(orm)
     o['kb_obj'] = kb_view({kid: w.key(kid).balance() for kid in orm})
+    # utxos(key_id=k), naming neither account nor network, for every key that holds something and a few that do not
+    st.kurot = getattr(st, 'kurot', 0) + 1
+    zero = [kid for kid in st.akeys if not orm.get(kid)]
+    kus = [kid for kid in sorted(orm) if orm[kid]] + [zero[(st.kurot + j) % len(zero)] for j in range(min(2, len(zero)))]
+    ku = []
+    for kid in kus:
+        kl = w.utxos(key_id=kid)
+        ku.append('%d:%d:%d:%d' % (kid, sum(u['value'] for u in kl), len(kl), sum(1 for u in kl if u['key_id'] != kid)))
+    o['ku'] = ','.join(ku)
     o['txs'] = txs_view(st, w, full)
     w3 = open_wallet(st)
     o['kb'] = kb_view({k.id: k.balance for k in w3.keys()})
@@ -362,11 +382,17 @@ def observe(st, full):
             t = w3.transaction(txid)
             if t is not None:
                 try:
-                    rs.append('%s~%s~%s' % (txid, t.raw_hex(), '/'.join(i.witness_type or '-' for i in t.inputs)))
+                    rs.append('%s~%s~%s~%d~%d~%s~%s' % (txid, t.raw_hex(), '/'.join(i.witness_type or '-' for i in t.inputs),
+                                                        t.version_int, t.locktime,
+                                                        '/'.join(str(i.sequence) for i in sorted(t.inputs, key=lambda i: i.index_n)),
+                                                        '/'.join(str(o.value) for o in sorted(t.outputs, key=lambda o: o.output_n))))
                 except Exception as e:
                     rs.append('%s~ERR %s~-' % (txid, type(e).__name__))
         o['reser'] = ','.join(rs)
         o['pushed'] = ','.join('%s~%s' % (k, v) for k, v in sorted(getattr(st, 'pushed', {}).items()))
+        # the bytes of transactions made elsewhere and imported (fixed when they were imported), and of fully signed
+        # transactions at the moment they were stored
+        o['fixed'] = ','.join('%s~%s' % (k, v) for k, v in sorted(st.fixed.items()))
     del w3
     observe_groups(st, w, o)
     return o
@@ -402,6 +428,11 @@ def store_op(st, t, sent, mops):
             st.pushed.setdefault(t.txid, t.raw_hex())
         except Exception:
             pass
+    try:
+        if t.verified:
+            st.fixed.setdefault(t.txid, t.raw_hex())
+    except Exception:
+        pass
     mops.append('T:%d:%s:%d:%d:%d:%s:%s:%s' % (1 if sent else 0, t.txid, nwid(st, t.network.name), t.account_id,
                                                t.confirmations or 0, ins, outs, raw))
 
@@ -437,6 +468,8 @@ def do_op(st, tok, quiet=False):
         if k == 'na':
             if len(w.accounts()) >= MAX_ACCOUNTS:
                 err = 'skip'
+            elif 0 not in w.accounts():
+                w.new_account(account_id=0)      # a wallet created with account_id=N: account 0 comes later
             else:
                 w.new_account()
         elif k == 'nn':
@@ -449,6 +482,63 @@ def do_op(st, tok, quiet=False):
             w.new_key(**gkw(pick_group(st, a, 1)))
         elif k == 'gk':
             w.get_key(**gkw(pick_group(st, a, 1)))
+        elif k in ('ik', 'ip'):
+            # a key WITHOUT key material: ik  import_key(Address) (no public key, watch-only), ip  a public key only;
+            # import_key(.., account_id=a) when the token names a group of the wallet's own network
+            if w.multisig:
+                err = 'skip'
+            else:
+                g = pick_group(st, a, 2)
+                fk = HDKey.from_seed(hashlib.sha256(b'c08-foreign-%s-%d' % (st.hid.encode(), int(a[1]))).digest(),
+                                     network=NW, witness_type=WT[st.kind], key_type='single')
+                kw = {'account_id': g[1]} if g is not None and g[0] == NW else {}
+                w.import_key(Address.parse(fk.address(), network=NW) if k == 'ik' else fk.public(), **kw)
+        elif k == 'ir':
+            # a transaction made ELSEWHERE (version 2, a locktime, sequences below the maximum, two outputs) comes in
+            # as raw bytes / Transaction object / dict, and is then stored or sent: ir:<dest>:<permille>:<version>:
+            # <locktime>:<form r|o|d>:<then 0|s|b>
+            dest, permille, ver, lock, form, then = a[1], int(a[2]), int(a[3]), int(a[4]), a[5], a[6]
+            g = (NW, w.default_account_id)
+            avail = sum(u['value'] for u in w.utxos(min_confirms=0))
+            if avail < 20000:
+                err = 'skip'
+            else:
+                amount = max(1000, avail * permille // 1000)
+                outs = [(dest_addr(st, dest, g), amount - amount // 3), (st.ext[NW], amount // 3)]
+                try:
+                    t0 = w.transaction_create(outs, min_confirms=0, locktime=lock)
+                    t0.version_int, t0.version = ver, ver.to_bytes(4, 'big')
+                    t0.sign(st.privs) if st.privs else t0.sign()
+                    t0.verify()
+                    raw = t0.raw_hex()
+                    signed = bool(t0.verified)
+                    del t0
+                    if form == 'r':
+                        rt = w.transaction_import_raw(raw)
+                    elif form == 'o':
+                        rt = w.transaction_import(Transaction.parse_hex(raw, network=NW))
+                    else:
+                        rt = w.transaction_import(Transaction.parse_hex(raw, network=NW).as_dict())
+                    if then == 'b':
+                        rt.send()
+                    elif then == 's':
+                        rt.store()
+                finally:
+                    refresh_keys(st, mops)
+                created_ops(st, rt, mops, 0, g)
+                if then != 'b' or (rt.pushed and not rt.error):
+                    st.created.append(rt)
+                if signed:
+                    st.fixed[rt.txid] = raw
+                if then == 'b':
+                    note_tx(st, rt, True)
+                    if rt.pushed and not rt.error:
+                        store_op(st, rt, True, mops)
+                    else:
+                        err = 'notpushed:' + str(rt.error)
+                elif then == 's':
+                    note_tx(st, rt, False)
+                    store_op(st, rt, False, mops)
         elif k in ('uu', 'un', 'uk'):
             kid = None
             if k == 'uk':
@@ -647,7 +737,7 @@ def do_op(st, tok, quiet=False):
         err = 'WalletError ' + str(e)[:80]
     pre = []
     refresh_keys(st, pre)
-    return pre + mops if k in ('nk', 'gk', 'na', 'nn') else mops + pre, err
+    return pre + mops if k in ('nk', 'gk', 'na', 'nn', 'ik', 'ip') else mops + pre, err
 
 
 def seed_of(hid, how='main'):
@@ -678,11 +768,35 @@ def create_wallet(sh, kind, hid, how):
     elif kind == 'single':
         w = Wallet.create(st.name, keys=HDKey.from_seed(seed, network=NW, witness_type=wt, key_type='single'),
                           scheme='single', network=NW, witness_type=wt, db_uri=st.uri)
+    elif kind in ('addr', 'addrl'):
+        # a single-key wallet made from an address string: the key row has neither private nor public key
+        w = Wallet.create(st.name, keys=HDKey.from_seed(seed, network=NW, witness_type=wt, key_type='single').address(),
+                          network=NW, db_uri=st.uri)
+    elif kind == 'singlep':
+        w = Wallet.create(st.name, keys=HDKey.from_seed(seed, network=NW, witness_type=wt, key_type='single').public(),
+                          scheme='single', network=NW, witness_type=wt, db_uri=st.uri)
+    elif kind == 'hdw':
+        # watch-only HD wallet from the account's extended public key
+        w = Wallet.create(st.name, keys=HDKey.from_seed(seed, network=NW, witness_type=wt).public_master(witness_type=wt),
+                          network=NW, witness_type=wt, db_uri=st.uri)
+    elif 'a' in sh.flags:
+        # the wallet's default account is not 0 from the start
+        w = Wallet.create(st.name, keys=HDKey.from_seed(seed, network=NW, witness_type=wt), network=NW,
+                          witness_type=wt, account_id=1 + seed[0] % 2, db_uri=st.uri)
     else:
         w = Wallet.create(st.name, keys=HDKey.from_seed(seed, network=NW, witness_type=wt), network=NW,
                           witness_type=wt, db_uri=st.uri)
+        if 'd' in sh.flags:
+            # the default account is changed (and persisted) after a second account was opened; the calls that follow
+            # go through a Wallet object opened afterwards
+            w.new_account()
+            w.default_account_id = 1
+            del w
+            gc.collect()
+            w = Wallet(st.name, db_uri=st.uri)
     st.w = w
     st.keys, st.addr, st.akeys, st.created, st.touched = {}, {}, [], [], set()
+    st.fixed, st.hid, st.kind = {}, hid, kind
     st.pre, st.want_pre = None, False
     sh.wallets.append(st)
     init = ['W:%d:0:%d:%d' % (st.wid, w.default_account_id, 1 if w.scheme == 'bip32' else 0)]
@@ -700,6 +814,7 @@ def run_history(kindf, hid, ops):
     sh.uri = 'sqlite:///' + fn
     sh.txids, sh.nws, sh.wallets = set(), [NW], []
     sh.fork, sh.shared_delete = 'f' in flags, 'x' in flags
+    sh.flags = flags
     MULTI_OUT[0] = 'm' in flags
     ADDRN.clear()
     random.seed(int(hashlib.sha256(('c08' + hid).encode()).hexdigest()[:12], 16))
